@@ -35,6 +35,7 @@ RULE = ("generated programs: C01's grammar (static shapes; three configurations"
         "content.  non-trivial = >= 1 decided subscript that is not the "
         "identity of the iteration indices, or >= 1 decided subscript under a "
         "condition; distinct by canonical JSON")
+RULE += '  Round-4 additions: CSR products whose row_starts has nrows+delta entries, delta in 0..3, static and symbolic (only delta=1 is well formed: whatever pytato accepts must be in bounds); two stored intermediates of different shapes under one Named name in both output orders (refused, or separate storage).'
 ASSUMPTIONS = [
     "hand-written callee kernels of call_loopy are not checked (user code); "
     "the sub-array references passed to them are",
